@@ -7,3 +7,4 @@ import JaxVerif.Properties.C07
 #print axioms JV.C07_bind_error
 #print axioms JV.C07_result_passthrough
 #print axioms JV.C07_generated_good
+#print axioms JV.C07_same_signature
